@@ -209,7 +209,7 @@ def _size_delta(S, p):
     d = 0
     sym = []
     for x in p.events:
-        if x.ci["k"] == "call" and x.ci["npath"].startswith("std::cell::Cell::<T>::set") and fmt(strip(S.args_of(x)[0])).endswith("self.size"):
+        if x.ci["k"] == "call" and x.ci["npath"].startswith(("std::cell::Cell::<T>::set", "std::cell::Cell::<T>::replace")) and fmt(strip(S.args_of(x)[0])).endswith("self.size"):
             v = S.args_of(x)[1]
             s = fmt(v)
             r = repr(v)
